@@ -59,12 +59,27 @@ def make_call(spec):
     kw["seed"] = spec["seed"]
     f = getattr(sim, spec["fn"])
 
+    repeat = spec.get("repeat", 1)
+
     def call():
         with warnings.catch_warnings():
             warnings.simplefilter("ignore")
             try:
-                res = f(M, **kw)
-                return [[sorted(r.state.items(), key=repr), r.value] for r in res]
+                out = None
+                for _ in range(repeat):
+                    res = f(M, **kw)
+                    out = [[sorted(r.state.items(), key=repr), r.value] for r in res]
+                if repeat > 1 and not isinstance(M, dict.__class__):
+                    # use the model afterwards: its keys, labels and bookkeeping must still be alive and intact
+                    import gc
+                    gc.collect()
+                    touched = [sum(hash(l) for k in M for l in k), repr(sorted(M.items(), key=repr))]
+                    if hasattr(M, "variables"):
+                        touched.append(repr(sorted(M.variables, key=repr)))
+                    if hasattr(M, "mapping"):
+                        touched.append(repr(M.mapping))
+                    out = [out, len("".join(map(str, touched)))]
+                return out
             except Exception as e:  # noqa  (python-level errors are C11's subject; here only memory safety matters)
                 return "raised %s" % type(e).__name__
     return call
@@ -117,7 +132,7 @@ def main():
                 return orig_run(tape, fn, clock)
             tp.run = run_logged
             try:
-                tapedfs.enumerate_deviations(c, d, visit)
+                tapedfs.enumerate_deviations(c, d, visit, max_positions=int(os.environ.get("C17_MAXPOS", "40")))
             finally:
                 tp.run = orig_run
             out.write("DONE %d %d\n" % (i, runs[0]))
